@@ -7,8 +7,8 @@ RUNS = {
     "c12": (2400, 100000),
     "c13": (3000, 150000),
     "c14": (2400, 100000),
-    "c17": (1600, 60000),
-    "c18": (900, 30000),
+    "c17": (6000, 400000),
+    "c18": (2000, 60000),
 }
 # wall-clock safety net for dispatch (seconds); when hit, fewer runs are made and reported honestly
 BUDGET_S = {"quick": 240, "thorough": 3300}
